@@ -91,20 +91,52 @@ def o_damage(case):
         rdr = RTCMReader(io.BytesIO(data), quitonerror=qoe, errorhandler=handler)
         events = []
         it = iter(rdr)
-        for _ in range(len(items) * 2 + 4):
-            try:
-                raw, parsed = next(it)
-            except StopIteration:
-                break
-            except RTCMParseError:
-                if mode != "raise":
-                    raise Fail("raised-in-nonraise-mode", f"mode {mode}: RTCMParseError escaped the iterator")
-                events.append(("err", None))
-                continue
-            events.append(("ok", raw))
-            if parsed is None or parsed.payload != raw[3:-3]:
-                raise Fail("parsed-mismatch", "parsed object does not belong to the raw frame")
+        state = {"done": False, "fail": None}
+
+        def consume(limit):
+            """up to `limit` next() calls on the SAME iterator; returns True when iteration has ended"""
+            for _ in range(limit):
+                try:
+                    raw, parsed = next(it)
+                except StopIteration:
+                    state["done"] = True
+                    return
+                except RTCMParseError:
+                    if mode != "raise":
+                        state["fail"] = Fail("raised-in-nonraise-mode", f"mode {mode}: RTCMParseError escaped the iterator")
+                        return
+                    events.append(("err", None))
+                    continue
+                except BaseException as e:  # pylint: disable=broad-except
+                    state["fail"] = e
+                    return
+                events.append(("ok", raw))
+                if parsed is None or parsed.payload != raw[3:-3]:
+                    state["fail"] = Fail("parsed-mismatch", "parsed object does not belong to the raw frame")
+                    return
+
+        total = len(items) * 2 + 4
+        if case.get("handoff"):
+            # the reader is handed from one thread to another part-way (never used concurrently): "the same reader
+            # keeps working" must not depend on which thread continues
+            import threading
+
+            from pv.core import HarnessError
+
+            first = max(1, len(items) // 2)
+            for lim in (first, total):
+                if state["done"] or state["fail"]:
+                    break
+                t = threading.Thread(target=consume, args=(lim,), daemon=True)
+                t.start()
+                t.join(60)
+                if t.is_alive():
+                    raise HarnessError("C05 hand-off: the second thread did not return within 60 s on a stream of a few frames (the reader blocks after being handed to another thread?) - inconclusive by rule, not reported as a violation")
         else:
+            consume(total)
+        if state["fail"] is not None:
+            raise state["fail"]
+        if not state["done"]:
             raise Fail("non-termination", "iterator did not stop")
     finally:
         lg.removeHandler(counter)
@@ -151,6 +183,8 @@ def o_damage(case):
     if any(i["k"] == "damaged" and i.get("syncy_payload") for i in items):
         cls.append("damaged-frame-with-sync-like-payload")
     cls.append("handler-" + case.get("handler", "function"))
+    if case.get("handoff"):
+        cls.append("reader-handed-to-another-thread")
     return Res(nontrivial=sandwiched, classes=sorted(set(cls)))
 
 
@@ -172,7 +206,7 @@ def s_damage(draw, tier):
                 reps.append(streams.item("frame", base, repeat=True))
         k = draw(st.integers(0, len(items)))
         items = items[:k] + reps + items[k:]
-    return {"items": items, "mode": draw(st.sampled_from(["ignore", "log-handler", "log-nohandler", "raise"])), "handler": draw(st.sampled_from(["function", "collector", "bound-method"]))}
+    return {"items": items, "mode": draw(st.sampled_from(["ignore", "log-handler", "log-nohandler", "raise"])), "handler": draw(st.sampled_from(["function", "collector", "bound-method"])), "handoff": draw(st.integers(0, 3)) == 0}
 
 
 def e_tiny(tier, shard, nshards):
@@ -233,7 +267,7 @@ SUBS = [
         enum=e_all,
         examples=(250, 5000),
         rule="see property rule",
-        need={"two-byte-payload-all-single-bit-damage": 4096, "re-broadcast-frame-damaged-twice": 1, "damaged-frame-with-sync-like-payload": 1, "long-run-of-damaged-frames": 1, "handler-collector": 1, "damage-in-crc": 1, "damage-in-payload": 1, "damage-in-straddle": 1, "adjacent-damaged": 1, "raise": 1, "log-nohandler": 1},
+        need={"reader-handed-to-another-thread": 1, "two-byte-payload-all-single-bit-damage": 4096, "re-broadcast-frame-damaged-twice": 1, "damaged-frame-with-sync-like-payload": 1, "long-run-of-damaged-frames": 1, "handler-collector": 1, "damage-in-crc": 1, "damage-in-payload": 1, "damage-in-straddle": 1, "adjacent-damaged": 1, "raise": 1, "log-nohandler": 1},
         sample=_sample,
     ),
 ]
